@@ -44,14 +44,33 @@ def model(arch):
     return _MODELS[arch], _SEMS[arch]
 
 
+_PRISTINE = {}
+
+
+def fresh_env(arch):
+    """A (model, semantics) pair as a fresh process would build it: loaded once per check process
+    from the working tree's YAML and never used for analysis; every call returns an independent
+    deep copy of that pristine pair."""
+    if arch not in _PRISTINE:
+        with no_cache():
+            m = MachineModel(arch=arch)
+            s = ArchSemantics(m)
+        _PRISTINE[arch] = (m, s)
+    m0, s0 = _PRISTINE[arch]
+    # the parser is a process-wide singleton (pyparsing grammars must not be deep-copied): shared
+    memo = {id(s0._parser): s0._parser}
+    m, s = copy.deepcopy((m0, s0), memo)
+    return m, s
+
+
 def parser_for(isa):
     return ParserX86ATT() if isa == "x86" else ParserAArch64()
 
 
-def analyze(text, arch, lines=None, fixed=False, flag_deps=False, timeout=10, parsed=None, whole=False):
+def analyze(text, arch, lines=None, fixed=False, flag_deps=False, timeout=10, parsed=None, whole=False, env=None):
     """The analysis steps of osaca.inspect on a shipped model; returns a plain dict keyed by
     instruction text (line numbers dropped) so that runs on differently laid-out files compare."""
-    m, sem = model(arch)
+    m, sem = env if env is not None else model(arch)
     isa = m.get_ISA()
     p = parser_for(isa)
     parsed = p.parse_file(text) if parsed is None else parsed
